@@ -138,12 +138,18 @@ class LMCVariationalStrategy(_VariationalStrategy):
         lmc_coefficients = torch.randn(*batch_shape, self.num_tasks)
         self.register_parameter("lmc_coefficients", torch.nn.Parameter(lmc_coefficients))
 
-        if jitter_val is None:
-            self.jitter_val = settings.variational_cholesky_jitter.value(
-                self.base_variational_strategy.inducing_points.dtype
-            )
-        else:
-            self.jitter_val = jitter_val
+        # None: settings.variational_cholesky_jitter is read at call time, as the other strategies do
+        self.jitter_val = jitter_val
+
+    @property
+    def jitter_val(self) -> float:
+        if self._jitter_val is None:
+            return settings.variational_cholesky_jitter.value(dtype=self.base_variational_strategy.inducing_points.dtype)
+        return self._jitter_val
+
+    @jitter_val.setter
+    def jitter_val(self, jitter_val: float):
+        self._jitter_val = jitter_val
 
     @property
     def prior_distribution(self) -> MultivariateNormal:
